@@ -31,6 +31,11 @@ Rewrites (N = a name that is neither a parameter nor a local of the function bei
                        True if T contains both `list` and `tuple`, False if it contains neither (else refused).
  R5 constant tests     `not <bool const>`, `True and x` -> x, `False or x` -> x, `False and x` -> False,
                        `True or x` -> True; `if <bool const>: A else: B` -> the taken branch.
+ R6 del of the last    statement `del v[-1]` (one target, constant index -1) where v is a local, not a parameter,
+    list item          and EVERY binding of v in the function is `v = [ ... ]` (a list display) or `v = list(...)`
+                       (`list` not rebound in the module), so that v is a list wherever the statement runs
+                                                                   ->  the expression statement `v.pop()`
+                       (same effect, same IndexError on an empty list; the popped value is discarded).
 """
 from __future__ import annotations
 
@@ -354,6 +359,53 @@ def _method_aliases(fdef: ast.FunctionDef, notes):
         notes.add('R3 bound method %s = %s.%s' % (a, v, meth))
 
 
+def _del_last(fdef: ast.FunctionDef, mod: _Module, notes):
+    """R6"""
+    params = {a.arg for a in fdef.args.args + fdef.args.kwonlyargs + fdef.args.posonlyargs}
+    for extra in (fdef.args.vararg, fdef.args.kwarg):
+        if extra is not None:
+            params.add(extra.arg)
+    fresh_list, other = set(), set()      # names bound only by `v = [..]` / `v = list(..)`; names bound otherwise
+    assign_targets = set()
+    for n in ast.walk(fdef):
+        if isinstance(n, ast.Assign) and len(n.targets) == 1 and isinstance(n.targets[0], ast.Name):
+            v = n.value
+            if isinstance(v, ast.List) or (isinstance(v, ast.Call) and isinstance(v.func, ast.Name)
+                                           and v.func.id == 'list' and mod.unbound('list') and not v.keywords
+                                           and len(v.args) <= 1 and not any(isinstance(a, ast.Starred) for a in v.args)):
+                fresh_list.add(n.targets[0].id)
+                assign_targets.add(id(n.targets[0]))
+    for n in ast.walk(fdef):
+        if isinstance(n, ast.Name) and isinstance(n.ctx, (ast.Store, ast.Del)) and id(n) not in assign_targets:
+            other.add(n.id)
+        elif isinstance(n, (ast.Global, ast.Nonlocal)):
+            other.update(n.names)
+        elif isinstance(n, (ast.FunctionDef, ast.AsyncFunctionDef, ast.ClassDef, ast.Lambda)) and n is not fdef:
+            other.update(fresh_list)      # a nested scope could rebind / shadow: give up altogether
+    ok = fresh_list - other - params
+    if 'list' in (other | fresh_list | params):
+        return
+
+    class Rewrite(ast.NodeTransformer):
+        def visit_Delete(self, st):
+            if len(st.targets) != 1:
+                return st
+            t = st.targets[0]
+            if not (isinstance(t, ast.Subscript) and isinstance(t.value, ast.Name) and t.value.id in ok):
+                return st
+            ix = t.slice
+            minus_one = (isinstance(ix, ast.Constant) and type(ix.value) is int and ix.value == -1) or \
+                (isinstance(ix, ast.UnaryOp) and isinstance(ix.op, ast.USub) and isinstance(ix.operand, ast.Constant)
+                 and type(ix.operand.value) is int and ix.operand.value == 1)
+            if not minus_one:
+                return st
+            call = ast.Call(func=ast.Attribute(value=ast.Name(id=t.value.id, ctx=ast.Load()), attr='pop',
+                                               ctx=ast.Load()), args=[], keywords=[])
+            notes.add('R6 del %s[-1] = %s.pop()' % (t.value.id, t.value.id))
+            return ast.copy_location(ast.Expr(value=call), st)
+    fdef.body = [Rewrite().visit(st) for st in fdef.body]
+
+
 def run(fdef: ast.FunctionDef, tree: ast.Module, spec: dict, info: dict = None) -> ast.FunctionDef:
     """-> an equivalent FunctionDef inside the translator's subset where possible (see the module docstring);
     the input object itself when no rewrite applies.  Never raises: a rewrite that cannot be justified is
@@ -382,6 +434,7 @@ def run(fdef: ast.FunctionDef, tree: ast.Module, spec: dict, info: dict = None) 
             _method_aliases(new, notes)
         except _Refuse:
             pass
+        _del_last(new, mod, notes)
         if not notes:
             return fdef
         ast.fix_missing_locations(new)
